@@ -1,8 +1,4 @@
 package main
 
-func randomMain(args []string)   { panic("todo") }
-func lebMain(args []string)      { panic("todo") }
-func instrMain(args []string)    { panic("todo") }
-func compileMain(args []string)  { panic("todo") }
 func numtextMain(args []string)  { panic("todo") }
 func literalsMain(args []string) { panic("todo") }
